@@ -77,9 +77,18 @@ func writerOf(srv *lrsrv.Srv) api.Client {
 }
 
 func write(srv *lrsrv.Srv, tags string, msgs ...string) error {
+	return writeTs(srv, tags, 0, msgs...)
+}
+
+// writeTs writes with the given timestamp (0 = now)
+func writeTs(srv *lrsrv.Srv, tags string, ts int64, msgs ...string) error {
 	evs := make([]*api.LogEvent, len(msgs))
 	for i, m := range msgs {
-		evs[i] = &api.LogEvent{Timestamp: time.Now().UnixNano(), Message: m}
+		t := ts
+		if t == 0 {
+			t = time.Now().UnixNano()
+		}
+		evs[i] = &api.LogEvent{Timestamp: t, Message: m}
 	}
 	var wr api.WriteResult
 	if err := writerOf(srv).Write(context.Background(), tags, "", evs, &wr); err != nil {
@@ -478,7 +487,7 @@ func sectionParked(rng *vh.Rng, corpus []parkedCase) {
 // nomatch
 
 type nomatchCase struct {
-	Kind string `json:"kind"` // other-partition | where-rejected | where-accepted
+	Kind string `json:"kind"` // other-partition | where-rejected | where-accepted | where-rejected-then-accepted | range-rejected-then-accepted
 	RPC  bool   `json:"rpc"`
 }
 
@@ -499,6 +508,9 @@ func runNomatch(c nomatchCase, idx int, sec *vh.Section) {
 	if c.Kind != "other-partition" {
 		q = "select from grp=a where msg contains \"x\" limit 10"
 	}
+	if c.Kind == "range-rejected-then-accepted" {
+		q = "select from grp=a where ts > 5000000000000000000 limit 10"
+	}
 	done := make(chan qres, 1)
 	go func() { done <- query(srv, api.QueryRequest{Query: q, Pos: "tail", WaitTimeout: 1, Limit: 10}, c.RPC) }()
 	time.Sleep(250 * time.Millisecond) // asleep by now
@@ -514,6 +526,24 @@ func runNomatch(c nomatchCase, idx int, sec *vh.Section) {
 		write(srv, "grp=a,part=p0", "new-without")
 		line = "queryloop 1 10 50 - D:- T"
 		lo, hi = time.Second, 250*time.Millisecond+time.Second+margin
+	case "where-rejected-then-accepted", "range-rejected-then-accepted":
+		// woken by a write the query does not select, the reader waits again (fresh timeout); the matching event written
+		// 300 ms later — well inside it — must be returned promptly
+		if c.Kind == "range-rejected-then-accepted" {
+			writeTs(srv, "grp=a,part=p0", 1000, "early-ts")
+		} else {
+			write(srv, "grp=a,part=p0", "new-without")
+		}
+		time.Sleep(300 * time.Millisecond)
+		if c.Kind == "range-rejected-then-accepted" {
+			writeTs(srv, "grp=a,part=p0", 6000000000000000000, "late-ts")
+			want = []string{"late-ts"}
+		} else {
+			write(srv, "grp=a,part=p0", "later x")
+			want = []string{"later x"}
+		}
+		line = "queryloop 1 10 50 - D:- D:7"
+		lo, hi = 0, 550*time.Millisecond+margin
 	case "where-accepted":
 		write(srv, "grp=a,part=p0", "new-without", "new x")
 		want = []string{"new x"}
@@ -546,7 +576,7 @@ func runNomatch(c nomatchCase, idx int, sec *vh.Section) {
 
 func sectionNomatch() {
 	sec := res.Section("nomatch", "spec-search",
-		"a sleeping reader (WaitTimeout 1 s, in-process and over RPC) and a write it must not report: to a partition the FROM condition does not select (must stay asleep and answer empty at the timeout), to a selected partition but rejected by WHERE (woken, re-reads, waits again with a fresh timeout, answers empty), and a batch of which WHERE accepts one event (exactly that one, promptly); compared with the Lean queryLoop over the corresponding script; non-trivial = every case")
+		"a sleeping reader (WaitTimeout 1 s, in-process and over RPC) and a write it must not report: to a partition the FROM condition does not select (must stay asleep and answer empty at the timeout), to a selected partition but rejected by WHERE (woken, re-reads, waits again with a fresh timeout, answers empty), a batch of which WHERE accepts one event (exactly that one, promptly), and a rejected write followed 300 ms later by an accepted one (WHERE on the message; WHERE on the timestamp) — the second wait must still happen and return exactly the accepted event; compared with the Lean queryLoop over the corresponding script; non-trivial = every case")
 	var wg sync.WaitGroup
 	i := 0
 	reps := 1
@@ -554,7 +584,7 @@ func sectionNomatch() {
 		reps = 12
 	}
 	for rep := 0; rep < reps; rep++ {
-		for _, k := range []string{"other-partition", "where-rejected", "where-accepted"} {
+		for _, k := range []string{"other-partition", "where-rejected", "where-accepted", "where-rejected-then-accepted", "range-rejected-then-accepted"} {
 			for _, rpc := range []bool{false, true} {
 				wg.Add(1)
 				go func(i int, c nomatchCase) { defer wg.Done(); runNomatch(c, i, sec) }(i, nomatchCase{Kind: k, RPC: rpc})
